@@ -182,15 +182,16 @@ def search(harness, timeout=420):
         os.makedirs(os.path.join(tmp, 'src', 'bin'))
         open(os.path.join(tmp, 'src', 'bin', 'replay.rs'), 'w').write(main)
         r = subprocess.run(['cargo', 'run', '--offline', '-q', '--bin', 'replay'], cwd=tmp, env=dict(env, RUSTFLAGS='-Awarnings'), capture_output=True, text=True, timeout=600)
-        return {'status': 'replayed-fails' if r.returncode == 1 and 'REPLAY FAILS' in r.stdout else 'replay-does-not-fail', 'bound': h['bound'], 'wall_s': wall,
-                'inputs': args, 'replay_main': main, 'replay_output': r.stdout[-1500:] + r.stderr[-500:], 'kani_cmd': ' '.join(cmd),
+        panicked = r.returncode not in (0, 1) and 'panicked at' in r.stderr      # the real crate panics on this input: a failure as well
+        return {'status': 'replayed-fails' if ((r.returncode == 1 and 'REPLAY FAILS' in r.stdout) or panicked) else 'replay-does-not-fail', 'bound': h['bound'], 'wall_s': wall,
+                'inputs': args, 'replay_main': main, 'replay_output': (r.stdout[-1500:] + r.stderr[-500:]) if not panicked else ('REPLAY PANICS on the real crate: ' + r.stderr[-700:]), 'kani_cmd': ' '.join(cmd),
                 'lib_rs': open(os.path.join(tmp, 'src', 'lib.rs')).read()}
     finally:
         shutil.rmtree(tmp, ignore_errors=True)
 
 PAIRING = [
     (r'^C04\.(u8|u16|u32|u64|i32|i64)\.', lambda m: 'c04_' + m.group(1)),
-    (r'^C15\.get_raw\.', lambda m: 'c15'),
+    (r'^C15\.(get_raw|get)\.', lambda m: 'c15'),
     (r'^C09\.(len_is_floor|is_empty_iff_len0)', lambda m: 'c09_len'),
     (r'^C09\.(get\.|next\.|iter)', lambda m: 'c09'),
     (r'^C10\.(verify_ident|parse_ident|from_ei_data)\.', lambda m: 'c10'),
